@@ -210,6 +210,21 @@ func collisionSpec() fileSpec {
 	}}
 }
 
+// shiftSpecs are descriptors in which "<service>_<method>" reads the same for two different
+// (service, method) pairs: the generator's escaping of underscores must keep their identifiers apart.
+func shiftSpecs() []fileSpec {
+	return []fileSpec{
+		{Pkg: "a", Msgs: []string{"Req"}, Services: []svcSpec{
+			{Name: "Store_Item", Methods: []methodSpec{{Name: "Get", In: "Req", Out: "Req"}, {Name: "List", SS: true, In: "Req", Out: "Req"}}},
+			{Name: "Store", Methods: []methodSpec{{Name: "Item_Get", In: "Req", Out: "Req"}, {Name: "Item_List", CS: true, SS: true, In: "Req", Out: "Req"}}},
+		}},
+		{Pkg: "my_pkg.v1", JSON: true, Msgs: []string{"Req"}, Services: []svcSpec{
+			{Name: "Foo", Methods: []methodSpec{{Name: "Bar_Baz", In: "Req", Out: "Req"}, {Name: "Bar__Baz", CS: true, In: "Req", Out: "Req"}}},
+			{Name: "Foo_Bar", Methods: []methodSpec{{Name: "Baz", CS: true, In: "Req", Out: "Req"}, {Name: "_Baz", SS: true, In: "Req", Out: "Req"}}},
+		}},
+	}
+}
+
 func buildRequest(f fileSpec, idx int) *pluginpb.CodeGeneratorRequest {
 	goPkg := fmt.Sprintf("c17scratch/p%d", idx)
 	fd := &descriptorpb.FileDescriptorProto{
@@ -579,6 +594,11 @@ func gen(tier string, seed uint64) []runner.Scenario {
 	out = append(out, runner.Scenario{ID: "fixed/collision-A_B-vs-A.B", Run: func() runner.Result {
 		return checkSpec("fixed/collision-A_B-vs-A.B", collisionSpec(), 0, seed)
 	}})
+	for k, f := range shiftSpecs() {
+		k, f := k, f
+		id := fmt.Sprintf("fixed/underscore-shift-%d", k)
+		out = append(out, runner.Scenario{ID: id, Run: func() runner.Result { return checkSpec(id, f, 1000+k, seed) }})
+	}
 	for i := 1; i <= n; i++ {
 		i := i
 		r := &payload.SplitMix{S: payload.Hash(seed, 0xC17, uint64(i))}
@@ -593,7 +613,7 @@ func main() {
 	runner.Main(runner.Check{
 		Property: "C17",
 		Level:    "exploration",
-		Rule:     "one case = one generated file descriptor: 1-3 services named from {Foo, foo_bar, Foo_Bar, fooBar, FOO2, Get_Item, A, A_B, B, Svc, x, Store_}, 0-5 methods named from {Get, get_item, Get_Item, listItems, PUT2, B, A_B, Sync, x, Do_, Stream, Close, Send, Recv} in every streaming combination, packages {a, a.b.c, my_pkg.v1, Zed}, request/response types among local messages, a nested message and google.protobuf.StringValue, protolib in {default, custom}, json on/off; plus one fixed descriptor (services A_B and A with streaming method B). The plugin built from /repo generates the code; go build, go vet and a driver derived from the generated interfaces by go/parser run every method of the generated client against the generated server through drpcmux over a real connection. Non-trivial: descriptors with at least one method that the generator accepted. Distinct: by descriptor text.",
+		Rule:     "one case = one generated file descriptor: 1-3 services named from {Foo, foo_bar, Foo_Bar, fooBar, FOO2, Get_Item, A, A_B, B, Svc, x, Store_}, 0-5 methods named from {Get, get_item, Get_Item, listItems, PUT2, B, A_B, Sync, x, Do_, Stream, Close, Send, Recv} in every streaming combination, packages {a, a.b.c, my_pkg.v1, Zed}, request/response types among local messages, a nested message and google.protobuf.StringValue, protolib in {default, custom}, json on/off; plus fixed descriptors (services A_B and A with streaming method B; pairs of services whose <service>_<method> strings coincide, e.g. Store_Item.Get and Store.Item_Get). The plugin built from /repo generates the code; go build, go vet and a driver derived from the generated interfaces by go/parser run every method of the generated client against the generated server through drpcmux over a real connection. Non-trivial: descriptors with at least one method that the generator accepted. Distinct: by descriptor text.",
 		Assumptions: []string{
 			"protoc is not installed: both plugins are driven with hand-built CodeGeneratorRequests; protoc-gen-go comes from the module cache (v1.27.1)",
 			"two methods of one service, or two services, whose names differ only in case/underscores, and the gogo protolib (no gogo message generator available offline), are excluded",
